@@ -78,4 +78,15 @@ pub mod aead_2022 {
         let enc_key = identity_keys.remove(identity_keys.len() - 1);
         Ok((enc_key, identity_keys))
     }
+
+    /// Keys of a 2022 cipher as they appear in a configuration: every key must decode to exactly `N` bytes
+    /// (`password_to_keys` zero-pads a shorter key, which silently selects a different, weaker key)
+    pub fn config_password_to_keys<const N: usize>(password: &str) -> Result<([u8; N], Vec<[u8; N]>), base64ct::Error> {
+        for s in password.split(':') {
+            if Base64::decode_vec(s)?.len() != N {
+                return Err(base64ct::Error::InvalidLength);
+            }
+        }
+        password_to_keys(password)
+    }
 }
